@@ -417,6 +417,10 @@ def answer(text, chooser=None, model_cap=100_000):
     """Whole far end: text in, reply text out.  Raises WireError on malformed input."""
     p = parse(text)
     ms = []
+    if p.keys is None and (chooser is None or chooser.mode == "first"):
+        for m in models(p):  # answer-finder mode, no adversary: the first model is enough
+            return reply_finder(p, m)
+        return reply_finder(p, None)
     for m in models(p):
         ms.append(m)
         if len(ms) > model_cap:
